@@ -7,7 +7,7 @@ COQ = os.environ.get("VERIF_COQ_DIR") or os.path.join(VERIF, "coq")
 OUT = os.environ.get("VERIF_OUT_DIR") or VERIF     # evidence/ and replays/ are written below this
 CASES_DIR = os.path.join(COQ, "Cases")
 SCRATCH = os.path.join(COQ, ".scratch")
-NPROC = int(os.environ.get("VERIF_NPROC") or 0) or min(6, os.cpu_count() or 4)   # TEMP 6 while many builders share the machine; restore 16
+NPROC = int(os.environ.get("VERIF_NPROC") or 0) or min(16, os.cpu_count() or 4)
 FORBIDDEN = re.compile(r"\b(Admitted|admit|Axiom|Axioms|Parameter|Parameters|Conjecture|Conjectures|Hypothesis|Hypotheses|Variable|Variables)\b|Unset\s+Guard|bypass_check|type-in-type|impredicative-set|Admit\s+Obligations|Unset\s+Positivity|Unset\s+Universe")
 
 
